@@ -298,6 +298,9 @@ def handler : Handler := fun op j =>
       (List.finRange m).flatMap fun i => (List.finRange n).map fun jj => A i jj
     some (ok (jObj [("re", jFs ((flat P).map Prod.fst)), ("im", jFs ((flat P).map Prod.snd)),
       ("usvre", jFs ((flat M).map Prod.fst)), ("usvim", jFs ((flat M).map Prod.snd))]))
+  | "param_after" => do
+    let p0 ← fFloat? j "p0"; let l ← fFloats? j "assigns"
+    some (ok (jObj [("p", jF (paramAfter p0 l))]))
   | "accepts" => do
     -- argument checks of `NuclearNorm.prox` (`ndim`) and `L21Norm.prox` (`block`, `axis_none`): ok / ValueError
     let kind ← fStr? j "kind"
